@@ -329,6 +329,45 @@ def scalarMultO (x y : Obj α) (out : Option (Obj α)) (freshCast freshOut : Nat
         let r ← scalarMult x.t y'.t
         pure ⟨o.id, o.dtype, r⟩
 
+/-! ### storage: strided views of a flat memory (cplx.py:104-109, as fixed by 96aa40c)
+
+`Obj` above distinguishes tensor OBJECTS; it says nothing about where their entries live.  An `out=` buffer may be a
+different object that shares storage with an operand (`x[...]`, `x.view_as(x)`, `x.detach()`, `x.data`, overlapping
+slices of one workspace) or a non-contiguous view (transposed buffer, column of a workspace, every second element).
+The identity test accepts all of these, so the write-back has to be right for them. -/
+
+/-- a strided view: the logical shape and the storage address of every entry, in row-major order of the logical
+index (`storage_offset + Σ idx_k * stride_k`; repeated addresses for expanded stride-0 axes) -/
+structure View where
+  shape : List Nat
+  addr : List Nat
+  deriving Repr
+
+/-- the tensor a view shows -/
+def readView (m : Nat → α) (v : View) : Tensor α := ⟨v.shape, v.addr.map m⟩
+
+/-- `dst.copy_(src)` seen from the storage: the entries are stored one after the other at the addresses of the
+destination view -/
+def writeList (m : Nat → α) : List Nat → List α → (Nat → α)
+  | a :: as, v :: vs => writeList (fun i => if i = a then v else m i) as vs
+  | _, _ => m
+
+/-- steps 3-4 of `scalar_mult(x, y, out=o)` (cplx.py:101-109) on views of one memory `m`, i.e. after the identity
+test and `y.to(x)` (a cast copy shows the same values): shape test (`ValueError`), then BOTH parts are computed from
+the operands' current content into temporaries (`re`, `im`: the two halves of `scalarMult`'s data) and only then
+`real(out).copy_(re)`, `imag(out).copy_(im)`.  Returns the memory afterwards and the tensor `out` shows. -/
+def scalarMultMem (m : Nat → α) (x y o : View) : Except PyErr ((Nat → α) × Tensor α) := do
+  let xt := readView m x
+  let yt := readView m y
+  let rs ← resultShape xt yt
+  if o.shape ≠ rs then .error .ValueError
+  else do
+    let r ← scalarMult xt yt
+    let n := numel (o.shape.drop 1)
+    let m1 := writeList m (o.addr.take n) (r.data.take n)
+    let m2 := writeList m1 (o.addr.drop n) (r.data.drop n)
+    pure (m2, readView m2 o)
+
 /-- `matmul(x, y)` (cplx.py:110-128) -/
 def matmul (x y : Tensor α) : Except PyErr (Tensor α) := do
   let xr ← real x
